@@ -85,9 +85,9 @@ func runC01(r *Run) {
 		}
 		why := "if this fails, a " + role.Type + " with a forged/absent signature, or one verified against a key that is not in its own signed data, changes the resolved state"
 		r.requireSucc(P+".sig."+role.Type, why, f, core.Ctx{}, "",
-			"ok(Parser."+role.ParseOp+"(_, $1.OperationRequest, true))",
-			"ok(Parser."+role.ParseSD+"(_, Parser."+role.ParseOp+"(_, $1.OperationRequest, true).SignedData))",
-			"ok(internal/jws.VerifyJWS(Parser."+role.ParseOp+"(_, $1.OperationRequest, true).SignedData, Parser."+role.ParseSD+"(_, Parser."+role.ParseOp+"(_, $1.OperationRequest, true).SignedData)."+role.KeyField+", ...))",
+			"ok("+role.ParseOp+"(_, $1.OperationRequest, true))",
+			"ok("+role.ParseSD+"(_, "+role.ParseOp+"(_, $1.OperationRequest, true).SignedData))",
+			"ok(internal/jws.VerifyJWS("+role.ParseOp+"(_, $1.OperationRequest, true).SignedData, "+role.ParseSD+"(_, "+role.ParseOp+"(_, $1.OperationRequest, true).SignedData)."+role.KeyField+", ...))",
 		)
 	}
 
@@ -160,9 +160,9 @@ func runC01(r *Run) {
 			r.requireSucc(fmt.Sprintf("%s.reveal.%s.%s", P, role.Type, name),
 				"if this fails (in this mode), a "+role.Type+" revealing a value that is not the hash of its signing key is grouped under somebody else's commitment",
 				f, ctx, name,
-				"ok(Parser."+role.ParseSD+"(_, ?sd))",
+				"ok("+role.ParseSD+"(_, ?sd))",
 				"cmp(?sd == <result>.SignedData)",
-				"ok(hashing.IsValidModelMultihash(Parser."+role.ParseSD+"(_, ?sd)."+role.KeyField+", ?rv))",
+				"ok(hashing.IsValidModelMultihash("+role.ParseSD+"(_, ?sd)."+role.KeyField+", ?rv))",
 				"cmp(?rv == <result>.RevealValue)",
 			)
 		}
@@ -207,9 +207,9 @@ func (r *Run) checkLookup(P string) {
 			key := ff.TB.Of(mu.Key)
 			at := ff.At(mu)
 			bind := core.Bind{}
-			okKey := core.MatchTerm("commitment.GetCommitmentFromRevealValue(OperationProcessor.getRevealValue(_, ?op))", key, bind)
-			okFacts := okKey && core.HasFact(at, "ok(commitment.GetCommitmentFromRevealValue(OperationProcessor.getRevealValue(_, _)))") &&
-				core.HasFact(at, "ok(OperationProcessor.getRevealValue(_, _))")
+			okKey := core.MatchTerm("commitment.GetCommitmentFromRevealValue(getRevealValue(_, ?op))", key, bind)
+			okFacts := okKey && core.HasFact(at, "ok(commitment.GetCommitmentFromRevealValue(getRevealValue(_, _)))") &&
+				core.HasFact(at, "ok(getRevealValue(_, _))")
 			// the appended element is the same op
 			val := ff.TB.Of(mu.Value)
 			okVal := okKey && strings.Contains(val.String(), bind["op"].String())
@@ -225,15 +225,15 @@ func (r *Run) checkLookup(P string) {
 		"if this fails, the bucket key is not derived from the operation's own request under its own protocol version",
 		grv, core.Ctx{}, "",
 		"ok(protocol.Client.Get(_, $1.ProtocolVersion))",
-		"cmp(<result> == Parser.GetRevealValue(_, $1.OperationRequest))",
+		"cmp(<result> == GetRevealValue(_, $1.OperationRequest))",
 	)
 	// (c) parser.GetRevealValue returns RevealValue of the batch-mode parse of the same bytes
 	if f := r.fn(P, pkgParser, "Parser.GetRevealValue"); f != nil {
 		r.requireSucc(P+".lookup.reveal.parse",
 			"if this fails, the reveal value used for bucketing is not the one validated against the signing key",
 			f, core.Ctx{}, "",
-			"ok(Parser.ParseOperation(_, _, $1, true))",
-			"cmp(<result> == Parser.ParseOperation(_, _, $1, true).RevealValue)",
+			"ok(ParseOperation(_, _, $1, true))",
+			"cmp(<result> == ParseOperation(_, _, $1, true).RevealValue)",
 		)
 	}
 	// (d) in applyOperations, the slice given to applyFirstValidOperation is opMap[c] with c = commitmentFnc(state)
@@ -263,7 +263,7 @@ func (r *Run) checkLookup(P string) {
 				continue
 			}
 			mt := aff.TB.Of(lk.X)
-			if !core.MatchTerm("OperationProcessor.createOperationHashMap(_, $1)", mt, core.Bind{}) {
+			if !core.MatchTerm("createOperationHashMap(_, $1)", mt, core.Bind{}) {
 				ok = false
 				det = append(det, "lookup is not into createOperationHashMap(ops): "+mt.String())
 			}
